@@ -88,10 +88,22 @@ type StructInv struct {
 	TypeName    string
 	Self        string
 	Established []string
+	Helpers     []string // may write the fields too, but are only called from establishing functions / other helpers (checked)
 	Clause      *Clause
 	Pkg         *types.Package
 	rootType    types.Type
-	fields      map[string]bool
+	fields      map[string]bool // field paths (heap-name style, e.g. "channelConnectionCommon.log") the clause mentions
+	stable      map[string]bool // ... that are written by the establishing functions only: their VALUE never changes afterwards
+}
+
+// touches: the invariant field path that a store to storePath overlaps ("" if none).
+func (si *StructInv) touches(storePath string) string {
+	for p := range si.fields {
+		if storePath == p || strings.HasPrefix(storePath, p+".") || strings.HasPrefix(p, storePath+".") {
+			return p
+		}
+	}
+	return ""
 }
 
 type Pred struct {
@@ -299,9 +311,19 @@ func (e *Engine) loadContractFile(path string, pkg *types.Package) error {
 			si.TypeName = types.ExprString(rt)
 			mid := strings.TrimSpace(rest[ci+1 : ei])
 			mid = strings.TrimSpace(strings.TrimPrefix(mid, "established"))
+			helpers := ""
+			if hi := strings.Index(mid, " helpers "); hi >= 0 {
+				helpers = mid[hi+len(" helpers "):]
+				mid = mid[:hi]
+			}
 			for _, f := range splitTop(mid, ',') {
 				if f = strings.TrimSpace(f); f != "" {
 					si.Established = append(si.Established, f)
+				}
+			}
+			for _, f := range splitTop(helpers, ',') {
+				if f = strings.TrimSpace(f); f != "" {
+					si.Helpers = append(si.Helpers, f)
 				}
 			}
 			si.Clause = &Clause{Text: strings.TrimSpace(rest[ei+3:])}
